@@ -291,9 +291,18 @@ impl Node {
                         }
                     }
                     Err(e) => {
-                        if e.to_string().contains("Decode error") {
+                        // A frame that was read completely but cannot be understood (undecodable
+                        // term, wrong marker byte, control term that is not a control tuple) is
+                        // dropped; the stream itself is still in sync. Only a closed or broken
+                        // stream (I/O error, stalled frame, over-long length) ends the receiver.
+                        if matches!(
+                            e,
+                            edp_client::Error::Decode(_)
+                                | edp_client::Error::InvalidControlMessage(_)
+                                | edp_client::Error::Protocol(_)
+                        ) {
                             tracing::warn!(
-                                "Failed to decode message from {} (likely unsupported message type): {}",
+                                "Dropping a frame from {} that cannot be understood: {}",
                                 remote_node,
                                 e
                             );
